@@ -110,6 +110,7 @@ pub struct EmuResult {
     pub outcome: Outcome,
     pub violation: Option<Violation>,
     pub stats: EmuStats,
+    pub snapshot: Option<Snapshot2>,
 }
 
 #[derive(Clone)]
@@ -119,11 +120,35 @@ pub struct EmuConfig {
     /// run the heap monitor at every k-th marker (0 = never)
     pub heap_check_every: u64,
     pub footprint_check: bool,
+    /// stop when control reaches this label and return a snapshot of the machine (fragments, C11)
+    pub stop_label: Option<String>,
+    /// initial contents of the heap (words from the heap base)
+    pub init_heap: Option<Vec<u64>>,
 }
 
 impl Default for EmuConfig {
     fn default() -> Self {
-        EmuConfig { heap_bytes: 1 << 20, max_instructions: 20_000_000, heap_check_every: 1, footprint_check: true }
+        EmuConfig { heap_bytes: 1 << 20, max_instructions: 20_000_000, heap_check_every: 1, footprint_check: true, stop_label: None, init_heap: None }
+    }
+}
+
+/// machine state at `stop_label`: registers by the emulator's own hardware index
+pub struct Snapshot2 {
+    pub regs: Vec<(u64, bool)>,
+    pub sp: u64,
+    pub stack_base: u64,
+    pub stack_words: Vec<u64>,
+    pub stack_def: Vec<bool>,
+    pub heap_words: Vec<u64>,
+}
+
+impl Snapshot2 {
+    pub fn stack_at(&self, addr: u64) -> Option<(u64, bool)> {
+        if addr < self.stack_base || addr % 8 != 0 {
+            return None;
+        }
+        let i = ((addr - self.stack_base) / 8) as usize;
+        self.stack_words.get(i).map(|w| (*w, self.stack_def[i]))
     }
 }
 
